@@ -105,6 +105,24 @@ CHECKS = {
             "The value decoder sees exactly &payload[..length]; the remainder is exactly &payload[length - r.len()..]; every decoder returns "
             "a suffix of its input and no unsafe code exists in the library crates; no greedy row precedes another row.",
             "Non-interference of the bytes beyond the announced length follows from Rust's slice semantics once these hold. " + TB),
+    "C04": ("other", "5.4",
+            "who-may-call on the byte source, dominance/edge rules and prover-backed buffer-length equalities in read_packet, header-constant agreement across three sites",
+            "Only read_exact ever reads the source; the read plan is header(3) / +2 on the 0xFF edge / exactly the announced body (length "
+            "equality proved over Vec-length versions); every read failure returns Err without parsing; header constants, byte order and "
+            "offsets agree between Adpu::serialize, Adpu::deserialize, read_packet and the specification.",
+            "Chunking/Pending behaviour is tokio's read_exact contract (trusted); per-length byte equality is not decided. " + TB),
+    "C16": ("other", "5.16",
+            "decision-tree extraction (interval path enumeration) of writer and reader of each length style + constant/operand rules; C02 site rule on the readers",
+            "Truncated prefixes are errors (all sites of the six readers discharged); BER and APDU switch points, markers, number of length "
+            "bytes, byte order and data offsets agree between writer, reader and the specification; LLVAR uses exactly N base-10 digits with "
+            "masks F0/0F on both sides; Fixed<N> requires and returns exactly N.",
+            "Arithmetic inside a form (k % 10, digit weights) is out of static reach and not claimed. " + TB),
+    "C17": ("other", "5.17",
+            "C02 site rule on the digit decoders, checked-arithmetic shape rule, inverse-primitive and constant-set agreement rules",
+            "Digits that do not fit are an error (overflow sites discharged; accumulator only through checked ops whose None becomes Err); "
+            "Default is LE and BigEndian BE for all ten integral pairs; two-byte tag pages {1F, FF} agree between writer, reader and spec; "
+            "the FFFF receipt sentinel is routed to the same codec on both sides; hex/CP437 use inverse primitives.",
+            "Value-level round trips per value are not decided. " + TB),
 }
 
 NOT_YET = "check not yet built in this commit (under construction, see DESIGN.md section 10)"
